@@ -1533,6 +1533,13 @@ class Exec:
         fnp = self.over.get(tgt) if kind == 'over' else self.summ.get(tgt)
         if fnp is None:
             raise Unsupported('no summary for call %s  (key %s)' % (callee, tgt))
+        if args and isinstance(args[0], SymResult) and isinstance(tgt, str) and tgt.startswith(('Option::', 'Result::')) and tgt not in SYMRESULT_AWARE:
+            # a combinator without a rule for symbolic discriminants: decide the discriminant on this path (forks the path if both are possible)
+            v0 = args[0]
+            if self.conc_bool(st, V(v0.err, 'bool')):
+                args = [NONE if v0.opt else Err(v0.errval)] + list(args[1:])
+            else:
+                args = [(Some if v0.opt else Ok)(v0.ok)] + list(args[1:])
         rv = fnp(self, st, fr, args, info)
         if rv is PENDING:
             return None
@@ -1681,6 +1688,10 @@ class Exec:
                         self.pop()
                 return
             raise Unsupported('step result %r' % (r,))
+
+
+SYMRESULT_AWARE = {'Option::map', 'Result::map', 'Option::unwrap', 'Result::unwrap', 'Option::expect', 'Result::expect', 'Option::ok_or', 'Option::ok_or_else',
+                   'Option::is_some', 'Option::is_none'}
 
 
 class NoMerge(Exception):
